@@ -54,7 +54,7 @@ type tiers struct {
 
 func tier(t string) tiers {
 	if t == "thorough" {
-		return tiers{SmallTexts: 4000, LargeTexts: 1500, PosPerLarge: 120, PlansPerPos: 3, Queries: 6000}
+		return tiers{SmallTexts: 12000, LargeTexts: 6000, PosPerLarge: 120, PlansPerPos: 3, Queries: 20000}
 	}
 	return tiers{SmallTexts: 1200, LargeTexts: 480, PosPerLarge: 40, PlansPerPos: 2, Queries: 2000}
 }
